@@ -407,17 +407,23 @@ class Builder:
         return UsePulsesStatement(name, all, import_path=self.import_path)
 
 
-def contains_subcircuit(statement):
+def contains_subcircuit(statement, _known=None):
     """Return whether a subcircuit block occurs in this statement, directly
     or through the macros it calls."""
+    if _known is None:
+        _known = {}
     if isinstance(statement, GateStatement):
-        return isinstance(statement.gate_def, Macro) and contains_subcircuit(
-            statement.gate_def.body
-        )
+        macro = statement.gate_def
+        if not isinstance(macro, Macro):
+            return False
+        # Look into each macro once, however often it is called.
+        if id(macro) not in _known:
+            _known[id(macro)] = contains_subcircuit(macro.body, _known)
+        return _known[id(macro)]
     if isinstance(statement, BlockStatement) and statement.subcircuit:
         return True
     if isinstance(statement, (BlockStatement, LoopStatement)):
-        return any(contains_subcircuit(stmt) for stmt in statement.statements)
+        return any(contains_subcircuit(stmt, _known) for stmt in statement.statements)
     return False
 
 
